@@ -176,6 +176,8 @@ def run(repo: Repo, rep: Report, tier: str) -> None:
             rep.check(ok, "one-per-call", f"{m.name.replace('pynetdicom.', '')}.{q}", enclosing(c, (ast.stmt,)), "a second reader of the association's socket would steal bytes from the PDU stream", mod=m, node=c)
     rep.floor("socket read sites", n_sock, 3)
     check_gap_tolerance(repo, rep)
+    rep.rule("ready-probe", "the readiness probe sees TLS-buffered data on every SSLSocket, whichever side wrapped it")
+    check_ready_probe(repo, rep, "ready-probe")
 
 
 def check_gap_tolerance(repo: Repo, rep: Report) -> None:
@@ -235,3 +237,38 @@ def check_gap_tolerance(repo: Repo, rep: Report) -> None:
                 ok = q == "transport.AssociationServer.server_bind" and cls == "network"
                 rep.check(ok, "gap-tolerant", q, enclosing(c, (ast.stmt,)), f"a socket timeout of class '{cls}' is set outside the two known places: if it lands on an association socket, recv() gives up on slow segments", mod=m, node=c)
     rep.floor("settimeout call sites", n_other, 3)
+
+
+def check_ready_probe(repo: Repo, rep: Report, rule: str) -> None:
+    """AssociationSocket.ready decides whether the reactor reads at all. Bytes that TLS already
+    decrypted into its own buffer are invisible to select(): they are seen only through
+    SSLSocket.pending(), and that must be asked whenever the socket *is* an SSLSocket - on both
+    roles (the requestor wraps in connect(), the acceptor's socket arrives wrapped from
+    AssociationServer.get_request)."""
+    tr = repo.mod("transport")
+    ci = repo.cls("transport", "AssociationSocket")
+    fn = ci.getters.get("ready")
+    if fn is None:
+        rep.defer("transport.AssociationSocket.ready vanished")
+        return
+    fq = "transport.AssociationSocket.ready"
+    sel = [c for c in walk_no_nested(fn) if isinstance(c, ast.Call) and dotted(c.func) == "select.select"]
+    ok = len(sel) == 1 and len(sel[0].args) == 4 and norm(sel[0].args[0]) == "[self.socket]" and isinstance(sel[0].args[3], ast.Constant)
+    rep.check(ok, rule, fq, sel[0] if sel else "select.select([self.socket], [], [], 0)", "readiness must be probed on the association's own socket with a finite timeout", mod=tr, node=fn)
+    pend = [c for c in walk_no_nested(fn) if isinstance(c, ast.Call) and isinstance(c.func, ast.Attribute) and c.func.attr == "pending"]
+    rep.check(len(pend) >= 1, rule, fq, "SSLSocket.pending() consulted", "data already decrypted into the TLS layer's buffer is invisible to select(): without pending() a PDU that arrived in the same TLS record as the previous one is never read", mod=tr, node=fn)
+    for c in pend:
+        g = enclosing(c, (ast.If,))
+        conds = []
+        while g is not None and enclosing(g, (ast.FunctionDef,)) is fn:
+            if any(x is c for s in g.body for x in ast.walk(s)):
+                conds += g.test.values if isinstance(g.test, ast.BoolOp) and isinstance(g.test.op, ast.And) else [g.test]
+            g = enclosing(g, (ast.If,))
+        texts = [norm(x) for x in conds]
+        type_test = any(t in ("isinstance(self.socket, ssl.SSLSocket)", "isinstance(self.socket, SSLSocket)") for t in texts)
+        other = [t for t in texts if t not in ("isinstance(self.socket, ssl.SSLSocket)", "isinstance(self.socket, SSLSocket)", "_HAS_SSL")]
+        rep.check(type_test and not other, rule, fq, f"pending() consulted under {texts}", "whether the TLS buffer is consulted must depend only on the socket being an SSLSocket: a condition on configuration (tls_args is set on requestor sockets only; an acceptor's socket is wrapped by the server) leaves one role blind to buffered PDUs - a complete, conformant PDU is then never processed", mod=tr, node=c)
+        # the verdict must be `readable or pending`
+        r = enclosing(c, (ast.Return,))
+        okr = r is not None and isinstance(r.value, ast.BoolOp) and isinstance(r.value.op, ast.Or) and any("ready" in norm(v) for v in r.value.values)
+        rep.check(okr, rule, fq, r if r is not None else "return bool(ready) or bool(pending)", "buffered TLS data must make the socket ready in addition to, not instead of, select()", mod=tr, node=c)
